@@ -35,7 +35,7 @@ ASSUMPTIONS = [
   "when a start leaves a buffer that differs from MuJoCo's (known mechanisms: make_data all-zero, reset_data stale) the monitor "
   "records it, overwrites the buffer with MuJoCo's and continues, so everything else is still decided",
 ]
-BUDGET = {"quick": 150, "thorough": 1200}
+BUDGET = {"quick": 300, "thorough": 1200}
 
 A = 2e-5
 STARTS = ("make", "put_fresh", "put_mid", "reset_all", "reset_partial")
